@@ -9,9 +9,9 @@ assert REPO and os.path.realpath(REPO) != "/repo", "needs a scratch copy in VERI
 VERIF = os.path.dirname(os.path.dirname(os.path.abspath(__file__)))
 TARGETS = {
     "internal/executor/contracts/transaction_manager.go": ["C04", "C05", "C06"],
-    "internal/executor/contracts/interchain.go": ["C02", "C16", "C05"],
+    "internal/executor/contracts/interchain.go": ["C02", "C16", "C05", "C03", "C17"],
     "internal/executor/handle.go": ["C06", "C14", "C07", "C08"],
-    "internal/executor/contracts/governance.go": ["C15"],
+    "internal/executor/contracts/governance.go": ["C15", "C17"],
     "pkg/order/mempool/mempool_impl.go": ["C18", "C19"],
     "pkg/order/mempool/tx_store.go": ["C18", "C19"],
     "internal/ledger/account.go": ["C13", "C10", "C07"],
